@@ -67,6 +67,7 @@ namespace pika::detail {
             // remove item from queue before error handling
             queue_.front().ctx_.reset();
             queue_.pop_front();
+            PIKA_VERIF_POST("cv.pop", this, queue_.size(), 0);
 
             if (PIKA_UNLIKELY(!ctx))
             {
@@ -82,6 +83,7 @@ namespace pika::detail {
             return not_empty;
         }
 
+        PIKA_VERIF_POST("cv.none", this, 0, 0);
         if (&ec != &throws) ec = make_success_code();
 
         return false;
@@ -97,6 +99,7 @@ namespace pika::detail {
         queue.swap(queue_);
 
         // update reference to queue for all queue entries
+        PIKA_VERIF_POST("cv.all", this, queue.size(), 0);
         for (queue_entry& qe : queue) qe.q_ = &queue;
 
         while (!queue.empty())
@@ -106,6 +109,7 @@ namespace pika::detail {
             auto ctx = qe.ctx_;
             qe.ctx_.reset();
             queue.pop_front();
+            PIKA_VERIF_POST("cv.popall", this, queue.size(), 0);
             ctx.resume();
         }
 
@@ -128,6 +132,7 @@ namespace pika::detail {
         auto this_ctx = pika::execution::this_thread::detail::agent();
         queue_entry f(this_ctx, &queue_);
         queue_.push_back(f);
+        PIKA_VERIF_POST("cv.enq", this, queue_.size(), 0);
 
         reset_queue_entry r(f, queue_);
         {
@@ -135,6 +140,7 @@ namespace pika::detail {
             ::pika::detail::unlock_guard<std::unique_lock<mutex_type>> ul(lock);
             this_ctx.suspend();
         }
+        PIKA_VERIF_POST("cv.woke", this, f.ctx_ ? 1 : 0, 0);
 
         return f.ctx_ ? pika::threads::detail::thread_restart_state::timeout :
                         pika::threads::detail::thread_restart_state::signaled;
@@ -150,6 +156,7 @@ namespace pika::detail {
         auto this_ctx = pika::execution::this_thread::detail::agent();
         queue_entry f(this_ctx, &queue_);
         queue_.push_back(f);
+        PIKA_VERIF_POST("cv.enq", this, queue_.size(), 1);
 
         reset_queue_entry r(f, queue_);
         {
@@ -157,6 +164,7 @@ namespace pika::detail {
             ::pika::detail::unlock_guard<std::unique_lock<mutex_type>> ul(lock);
             this_ctx.sleep_until(abs_time.value());
         }
+        PIKA_VERIF_POST("cv.woke", this, f.ctx_ ? 1 : 0, 1);
 
         return f.ctx_ ? pika::threads::detail::thread_restart_state::timeout :
                         pika::threads::detail::thread_restart_state::signaled;
